@@ -135,10 +135,7 @@ def vSecs (s : Str) : Option Bool :=
        | _, _ => none)
     | _, _ => none
 
-def validDur (s0 : Str) : Bool :=
-  let s := match s0 with
-    | '-' :: r => r
-    | r => r
+def validDurBody (s : Str) : Bool :=
   match s with
   | 'P' :: r =>
     let y := vComp 'Y' r
@@ -154,5 +151,10 @@ def validDur (s0 : Str) : Bool :=
         | none => false)
      | _ => false)
   | _ => false
+
+def validDur (s0 : Str) : Bool :=
+  match s0 with
+  | '-' :: r => validDurBody r
+  | r => validDurBody r
 
 end Basyx.Lex
